@@ -32,6 +32,7 @@ pub fn asm_kind(e: &AsmError) -> String {
         AsmError::UndeclaredExpressionMacro { name, .. } => format!("UndeclaredExpressionMacro({})", name),
         AsmError::ParseInclude { source, .. } => parse_kind(source),
         AsmError::UndeclaredVariableMacro { var, .. } => format!("UndeclaredVariableMacro({})", var),
+        AsmError::DivisionByZero { .. } => "DivisionByZero()".into(),
         other => format!("AsmOther({})", format!("{:?}", other).split_whitespace().next().unwrap_or("?")),
     }
 }
